@@ -48,6 +48,7 @@ def run(P, rep, tier):
     rep.attempt(r1_paths_as_given, P, rep, ctx)
     rep.attempt(r2_mode_dispatch, P, rep, ctx)
     rep.attempt(r3_name_language, P, rep, ctx)
+    rep.attempt(r3b_find_files_filter, P, rep, ctx)
     rep.attempt(r4_close_discard, P, rep, ctx)
     rep.attempt(r5_codec, P, rep, ctx)
     # open mode 'r' never writes: commit / discard / create_patch refuse read-only records and act only on a really
@@ -87,6 +88,28 @@ def r1_paths_as_given(P, rep, ctx):
     rep.ok("C03.R1", "ih5", f"{n} functions of the record layer scanned for path canonicalisation", P.module(R).relpath)
     if n < 60:
         raise AnalysisError(f"C03.R1: only {n} functions scanned")
+
+
+def r3b_find_files_filter(P, rep, ctx, rule="C03.R3"):
+    """find_files reports *every* file of the directory whose name has the record's name pattern: the only filter is the
+    name test.  A further condition (is it an HDF5 file? is it readable? is it non-empty?) turns a damaged or foreign
+    container into an absent one, and the remaining files then open as an older state instead of failing."""
+    fi = P.func(f"{REC}.find_files")
+    f = F(ctx, fi)
+    rets = [v for _, v in f.returns() if v is not None]
+    ok = len(rets) == 1
+    detail = ""
+    if ok:
+        lf = f.list_filter(rets[0])
+        ok = lf is not None and ".glob(" in lf["src"]
+        if ok:
+            cj = [norm(c_) for c_ in M.conjuncts(lf["kept"])]
+            name_tests = [c_ for c_ in cj if c_.startswith("re.match(") or c_.startswith("re.fullmatch(") or ".match(" in c_]
+            other = [c_ for c_ in cj if c_ not in name_tests]
+            detail = "; ".join(other)
+            ok = len(name_tests) == 1 and not other
+    rep.check(ok, rule, fi.qual, "find_files keeps every globbed file whose name matches the record's name pattern (no further filter)", fi.loc(), construct="find_files filter",
+              message=f"find_files drops files by a condition other than the name pattern ({detail or 'unrecognised shape'}): a corrupted / foreign newest container is skipped instead of making the open fail, and the record opens showing an older state")
 
 
 def r1_sort_first(P, rep, ctx):
